@@ -197,6 +197,12 @@ pub fn core_fingerprint(w: &World) -> String {
         // (an armed budget-starved poll is state: the next poll behaves differently)
         let _ = write!(s, "starve|");
     }
+    // tasks alive on the runtime: a task that a dropped call left behind (detached, not
+    // cancelled) is state that no caller shows any more
+    let tasks = w.alive_tasks();
+    if tasks > 0 {
+        let _ = write!(s, "tasks{tasks}|");
+    }
     // rank of first poll among live callers (FIFO queues of tokio's semaphore / mutex)
     let mut order: Vec<(u64, usize)> = w
         .callers
